@@ -362,6 +362,8 @@ func visitInstr(fr *frame, instr ssa.Instruction) continuation {
 			fr.env[instr] = x[asInt64(idx)]
 		case string:
 			fr.env[instr] = x[asInt64(idx)]
+		case bstr:
+			fr.env[instr] = x[asInt64(idx)]
 		default:
 			panic(fmt.Sprintf("unexpected x type in Index: %T", x))
 		}
